@@ -11,6 +11,7 @@ obligation has to hold on every arm.  A caller may supply a `hook` that decides 
 property's own domain (e.g. "at delta = 0").
 """
 import ast
+import os
 from fractions import Fraction
 
 from . import poly
@@ -282,6 +283,22 @@ except (ValueError, RuntimeError):
     pass
 
 
+OPERATOR_BINARY = {
+    "add": ("arith", ast.Add), "sub": ("arith", ast.Sub), "mul": ("arith", ast.Mult), "truediv": ("arith", ast.Div),
+    "matmul": ("arith", ast.MatMult), "pow": ("arith", ast.Pow), "mod": ("arith", ast.Mod), "floordiv": ("arith", ast.FloorDiv),
+    "eq": ("cmp", ast.Eq), "ne": ("cmp", ast.NotEq), "lt": ("cmp", ast.Lt), "le": ("cmp", ast.LtE), "gt": ("cmp", ast.Gt),
+    "ge": ("cmp", ast.GtE), "is_": ("cmp", ast.Is), "is_not": ("cmp", ast.IsNot),
+}
+_NO_DEFAULT = object()
+
+
+class FieldSpec:
+    """dataclasses.field(default=..., default_factory=...)"""
+
+    def __init__(self, default, factory):
+        self.default, self.factory = default, factory
+
+
 class LazyIter:
     """A single-use iterator (generator expression, zip / map / filter / enumerate / reversed / iter object): its elements are
     computed when it is created, but each is handed out only once -- iterating it a second time yields nothing, as in Python."""
@@ -519,6 +536,8 @@ class Interp:
         self.overrides = {}      # name of an external function (spsolve, time, print) -> python callable standing in for it
         self.lossy_ok = False    # display formatting of numbers allowed (text is only printed / logged, never parsed again)
         self.class_inited = set()
+        self.modules_inited = set()
+        self.dyn_regs = {}           # id(dispatcher FunctionDef) -> [(class, implementation FunctionDef)] registered by call
         self.gen_stack = []          # generator objects whose body is currently executing (innermost last)
         self.nonneg_keys = set()     # keys of polynomials known to be sums of squares by construction (x . x)
         self.len_objs = []           # the objects returned by len(<collection>) (identity matters: `n = len(xs); if n > 100`)
@@ -663,7 +682,8 @@ class Interp:
         return Opaque("closure", fn, env, dvals, kdvals)
 
     TRANSPARENT_DECORATORS = {"property", "staticmethod", "classmethod", "abstractmethod", "wraps", "setter", "getter", "deleter",
-                              "contextmanager", "lru_cache", "cache", "overload", "final", "override"}
+                              "contextmanager", "lru_cache", "cache", "overload", "final", "override",
+                              "singledispatch", "singledispatchmethod", "register"}
 
     def decorated_value(self, fn):
         """None if all decorators of `fn` are understood natively; otherwise the value obtained by applying them (once)."""
@@ -698,6 +718,14 @@ class Interp:
                 raise self.unsupported("functools cache keyed on a mutable / identity-hashed object in %s" % fn_label(fn), fn)
         if fn.decorator_list and any(_deco_leaf(d) == "contextmanager" for d in fn.decorator_list) and base_env is None:
             return CtxGen(fn, list(args), kw)
+        mod_ = getattr(fn, "_gs_module", None)
+        if mod_ is not None and mod_ in self.pkg.module_effects:
+            self.ensure_module(mod_)
+        if fn.decorator_list and any(_deco_leaf(d) in ("singledispatch", "singledispatchmethod") for d in fn.decorator_list) and \
+                not getattr(self, "_dispatching", None) is fn:
+            impl = self.dispatch_target(fn, args)
+            if impl is not fn:
+                return self.call_function(impl, args, kw)
         a = fn.args
         if a.posonlyargs:
             raise self.unsupported("positional-only signature of %s" % fn_label(fn), fn)
@@ -799,6 +827,14 @@ class Interp:
         if clsname not in pkg.classes:
             raise Unsupported("construct unknown class %s" % clsname)
         self.ensure_class(clsname)
+        if pkg.classes[clsname].enum_kind:
+            if len(args) != 1:
+                raise Unsupported("functional Enum API")
+            for m in self.enum_members(clsname):
+                mv = m if pkg.classes[clsname].enum_kind == "int" else m.fields["value"]
+                if self.equal(mv, args[0], None) is True:
+                    return m
+            raise PathRaise("ValueError(not a valid %s)" % clsname, "enum lookup")
         k = pkg.lookup(clsname, "__new__")
         if k is not None and k[0] == "method":
             fn = k[1][0]
@@ -822,9 +858,20 @@ class Interp:
             for nm in names:
                 if nm not in obj.fields:
                     if nm in ci.consts:
-                        obj.fields[nm] = self.ev(ci.consts[nm], {})
+                        dv = self.ev_in_module(ci.consts[nm], ci.module)
+                        if isinstance(dv, FieldSpec):
+                            if dv.factory is not None:
+                                dv = self.call_value(dv.factory, [], None)
+                            elif dv.default is not _NO_DEFAULT:
+                                dv = dv.default
+                            else:
+                                raise PathRaise("TypeError(missing field %s)" % nm, "constructor")
+                        obj.fields[nm] = dv
                     else:
                         raise PathRaise("TypeError(missing field %s)" % nm, "constructor")
+            post = pkg.lookup(clsname, "__post_init__")
+            if post is not None and post[0] == "method":
+                self.call_function(post[1][0], [obj])
             obj.tuple_fields = names if any("NamedTuple" in b or "namedtuple" in b for b in ci.bases) else None
         elif args or kw:
             raise Unsupported("constructor arguments without __init__ for %s" % clsname)
@@ -955,6 +1002,17 @@ class Interp:
                     raise self.unsupported("del target", st)
         elif isinstance(st, ast.With):
             self.exec_with(st, 0, env)
+        elif isinstance(st, ast.Match):
+            subject = self.ev(st.subject, env)
+            for case in st.cases:
+                binds = {}
+                if not self.match_pattern(case.pattern, subject, binds, env, st):
+                    continue
+                env.update(binds)
+                if case.guard is not None and not self.truth(self.ev(case.guard, env), case.guard):
+                    continue
+                self.block(case.body, env)
+                break
         elif isinstance(st, ast.FunctionDef):
             st._gs_module = self.module_of_current()
             st._gs_class = None
@@ -971,6 +1029,89 @@ class Interp:
             env[st.name] = val
         else:
             raise self.unsupported("statement %s" % type(st).__name__, st)
+
+    def match_pattern(self, pat, v, binds, env, node):
+        """Structural pattern matching (PEP 634) of value v against pattern pat; captures go to `binds`."""
+        if isinstance(pat, ast.MatchValue):
+            return self.cmp(node, v, ast.Eq(), self.ev(pat.value, env)) is True
+        if isinstance(pat, ast.MatchSingleton):
+            return self.identical(v, pat.value)
+        if isinstance(pat, ast.MatchAs):
+            if pat.pattern is not None and not self.match_pattern(pat.pattern, v, binds, env, node):
+                return False
+            if pat.name is not None:
+                binds[pat.name] = v
+            return True
+        if isinstance(pat, ast.MatchOr):
+            for alt in pat.patterns:
+                b2 = {}
+                if self.match_pattern(alt, v, b2, env, node):
+                    binds.update(b2)
+                    return True
+            return False
+        if isinstance(pat, ast.MatchSequence):
+            if isinstance(v, Obj) and getattr(v, "tuple_fields", None):
+                v = tuple(v.fields[k] for k in v.tuple_fields)
+            if not isinstance(v, (list, tuple)):
+                return False
+            pats = pat.patterns
+            stars = [i for i, p_ in enumerate(pats) if isinstance(p_, ast.MatchStar)]
+            if not stars:
+                if len(pats) != len(v):
+                    return False
+                return all(self.match_pattern(p_, x, binds, env, node) for p_, x in zip(pats, v))
+            i = stars[0]
+            after = len(pats) - i - 1
+            if len(v) < len(pats) - 1:
+                return False
+            if not all(self.match_pattern(p_, x, binds, env, node) for p_, x in zip(pats[:i], v[:i])):
+                return False
+            if after and not all(self.match_pattern(p_, x, binds, env, node) for p_, x in zip(pats[i + 1:], v[len(v) - after:])):
+                return False
+            if pats[i].name is not None:
+                binds[pats[i].name] = list(v[i:len(v) - after])
+            return True
+        if isinstance(pat, ast.MatchMapping):
+            if not isinstance(v, dict):
+                return False
+            for k_, p_ in zip(pat.keys, pat.patterns):
+                hk = self.hashable(self.ev(k_, env), node)
+                if hk not in v or not self.match_pattern(p_, v[hk], binds, env, node):
+                    return False
+            if pat.rest is not None:
+                used = {self.hashable(self.ev(k_, env), node) for k_ in pat.keys}
+                binds[pat.rest] = {k_: x for k_, x in v.items() if k_ not in used}
+            return True
+        if isinstance(pat, ast.MatchClass):
+            c = self.ev(pat.cls, env)
+            if not self.isinstance_(v, c, node):
+                return False
+            if pat.patterns:
+                if isinstance(c, ClassRef) and c.name in ("str", "int", "float", "bool", "list", "tuple", "dict", "set", "bytes") and len(pat.patterns) == 1:
+                    if not self.match_pattern(pat.patterns[0], v, binds, env, node):
+                        return False
+                elif isinstance(c, ClassRef) and c.name in self.pkg.classes:
+                    ci = self.pkg.classes[c.name]
+                    names = list(ci.annotations)
+                    if "__match_args__" in ci.consts:
+                        names = list(self.iterate(self.class_const(c.name, "__match_args__", ci.consts["__match_args__"]), node))
+                    if len(pat.patterns) > len(names):
+                        raise PathRaise("TypeError(too many positional sub-patterns)", self.where(node))
+                    for nm_, p_ in zip(names, pat.patterns):
+                        x = self.ev_Attribute(ast.Attribute(value=_Lit(v), attr=nm_, ctx=ast.Load(), lineno=getattr(node, "lineno", 0)), {})
+                        if not self.match_pattern(p_, x, binds, env, node):
+                            return False
+                else:
+                    raise self.unsupported("positional class pattern for %r" % (c,), node)
+            for nm_, p_ in zip(pat.kwd_attrs, pat.kwd_patterns):
+                try:
+                    x = self.ev_Attribute(ast.Attribute(value=_Lit(v), attr=nm_, ctx=ast.Load(), lineno=getattr(node, "lineno", 0)), {})
+                except PathRaise:
+                    return False
+                if not self.match_pattern(p_, x, binds, env, node):
+                    return False
+            return True
+        raise self.unsupported("match pattern %s" % type(pat).__name__, node)
 
     def exec_with(self, st, i, env):
         """`with` items i.. of statement st, then its body: the context-manager protocol (class based or @contextmanager)."""
@@ -1080,6 +1221,8 @@ class Interp:
     def iterate(self, v, node):
         if isinstance(v, LazyIter):
             return v.drain()
+        if isinstance(v, ClassRef) and v.name in self.pkg.classes and self.pkg.classes[v.name].enum_kind:
+            return self.enum_members(v.name)
         if isinstance(v, (list, tuple)):
             return list(v)
         if isinstance(v, Obj) and self.dunder(v, "__iter__") is not None:
@@ -1315,6 +1458,8 @@ class Interp:
             return v.key()
         if isinstance(v, Obj) and getattr(v, "tuple_fields", None):
             return tuple(self.hashable(v.fields[k], node) for k in v.tuple_fields)
+        if isinstance(v, Obj) and getattr(v, "enum_member", False):
+            return ("enum", v.cls, v.fields["name"])
         if isinstance(v, slice):
             return ("slice", v.start, v.stop, v.step)
         raise self.unsupported("unhashable key %r" % (v,), node)
@@ -1400,6 +1545,9 @@ class Interp:
             return env[nm]
         mod = self.module_of_current()
         if mod is not None:
+            local_cls = self.pkg.module_classes.get(mod, {})
+            if nm in local_cls:
+                return ClassRef(local_cls[nm])
             consts = self.pkg.module_consts.get(mod, {})
             if nm in consts:
                 return self.module_global(mod, nm, consts[nm])
@@ -1426,9 +1574,120 @@ class Interp:
             return Opaque("builtin", nm)
         if nm == "__name__":
             return "graphslam"
+        if nm == "__debug__":
+            return True
         if nm == "float":
             return FLOAT
         raise self.unsupported("unknown name %s" % nm, n)
+
+    def enum_member_names(self, cname):
+        ci = self.pkg.classes[cname]
+        return [k for k, e in ci.consts.items() if not k.startswith("_") and not isinstance(e, ast.Lambda)]
+
+    def enum_member(self, cname, name):
+        """Members of an Enum class are singletons; IntEnum members are the integers themselves (they are used as indices)."""
+        key = ("enum", cname, name)
+        if key not in self.globals_cache:
+            ci = self.pkg.classes[cname]
+            val = self.class_const(cname, name, ci.consts[name])
+            if ci.enum_kind == "int":
+                self.globals_cache[key] = val
+            else:
+                m = Obj(cname)
+                m.fields["_name_"] = m.fields["name"] = name
+                m.fields["_value_"] = m.fields["value"] = val
+                m.enum_member = True
+                init = self.pkg.lookup(cname, "__init__")
+                if init is not None and init[0] == "method":
+                    self.call_function(init[1][0], [m] + (list(val) if isinstance(val, tuple) else [val]))
+                self.globals_cache[key] = m
+        return self.globals_cache[key]
+
+    def enum_members(self, cname):
+        return [self.enum_member(cname, k) for k in self.enum_member_names(cname)]
+
+    def ensure_module(self, rel):
+        """Execute the module-level statements with side effects (registrations, attribute assignments on classes) once."""
+        if rel in self.modules_inited:
+            return
+        self.modules_inited.add(rel)
+        fake = ast.FunctionDef(name="<module>", args=None, body=[], decorator_list=[])
+        fake._gs_module, fake._gs_class = rel, None
+        self.fn_stack.append(fake)
+        try:
+            env = {}
+            for st in self.pkg.module_effects.get(rel, []):
+                self.stmt(st, env)
+        finally:
+            self.fn_stack.pop()
+
+    def annotation_class(self, ann, rel):
+        """The class a parameter annotation denotes (for singledispatch registration by annotation), or None."""
+        if ann is None:
+            return None
+        if isinstance(ann, ast.Constant) and isinstance(ann.value, str):
+            try:
+                ann = ast.parse(ann.value, mode="eval").body
+            except SyntaxError:
+                return None
+        try:
+            v = self.ev_in_module(ann, rel)
+        except (Unsupported, PathRaise):
+            return None
+        return self.as_class(v)
+
+    @staticmethod
+    def as_class(v):
+        if isinstance(v, ClassRef):
+            return v
+        if isinstance(v, Opaque) and v.kind == "builtin" and v.payload[0] in ("int", "float", "str", "list", "tuple", "dict", "set", "bool", "object"):
+            return ClassRef(v.payload[0])
+        return None
+
+    def dispatch_target(self, fn, args):
+        """functools.singledispatch(-method): the registered implementation for the type of the dispatch argument."""
+        is_method = getattr(fn, "_gs_class", None) is not None
+        k = 1 if is_method else 0
+        if len(args) <= k:
+            return fn
+        v = args[k]
+        regs = []       # (class, FunctionDef)
+        rel = getattr(fn, "_gs_module", None)
+        if is_method:
+            for c in self.pkg.mro(fn._gs_class):
+                for r in self.pkg.classes[c].dispatch_regs.get(fn.name, []):
+                    regs.append(r)
+        else:
+            regs = list(self.pkg.dispatch_regs.get((rel, fn.name), []))
+        table = []
+        for r in regs:
+            cls = None
+            for d in r.decorator_list:
+                if isinstance(d, ast.Call) and isinstance(d.func, ast.Attribute) and d.func.attr == "register" and d.args:
+                    cls = self.as_class(self.ev_in_module(d.args[0], rel))
+            if cls is None:
+                params = r.args.args[k:]
+                cls = self.annotation_class(params[0].annotation, rel) if params else None
+            if cls is None:
+                raise self.unsupported("singledispatch registration of %s without a resolvable type" % fn_label(r), r)
+            table.append((cls, r))
+        table += self.dyn_regs.get(id(fn), [])
+        # most specific registered class along the value's MRO
+        t = self.type_of(v, fn)
+        if t.name in self.pkg.classes:
+            for c in self.pkg.mro(t.name):
+                for cls, r in table:
+                    if cls.name == c:
+                        return r
+            if isinstance(v, Arr):
+                for cls, r in table:
+                    if cls.name == "ndarray":
+                        return r
+        else:
+            for cls, r in table:
+                if self.isinstance_(v, cls, fn) and cls.name != "object":
+                    return r
+        return fn
 
     CLASS_DECORATORS_TRANSPARENT = {"dataclass", "total_ordering", "final", "runtime_checkable"}
 
@@ -1439,6 +1698,8 @@ class Interp:
                 continue
             self.class_inited.add(c)
             ci = self.pkg.classes[c]
+            if ci.module in self.pkg.module_effects:
+                self.ensure_module(ci.module)
             for d in reversed(ci.decorators):
                 if _deco_leaf(d) in self.CLASS_DECORATORS_TRANSPARENT:
                     if _deco_leaf(d) == "total_ordering":
@@ -1675,6 +1936,13 @@ class Interp:
             return l == r
         if type(l) is not type(r) and not (isinstance(l, Arr) and isinstance(r, Arr)):
             return False
+        if isinstance(l, Obj) and isinstance(r, Obj):
+            f_ = self.dunder(l, "__eq__")
+            if f_ is not None:
+                return self.truth(self.call_function(f_, [l, r]), node)
+            if getattr(l, "tuple_fields", None) and getattr(r, "tuple_fields", None):
+                return self.equal(tuple(l.fields[k] for k in l.tuple_fields), tuple(r.fields[k] for k in r.tuple_fields), node)
+            return l is r            # default object equality is identity (enum members are singletons)
         raise self.unsupported("equality of %r and %r" % (l, r), node)
 
     def ev_BinOp(self, n, env):
@@ -1894,8 +2162,9 @@ class Interp:
             cols = [self.intval(x, sl) for x in (v[1].data if isinstance(v[1], Arr) else v[1])]
             if len(rows) == len(cols):
                 return IndexSet(list(zip(rows, cols)))
-        if isinstance(v, list) and v and all(isinstance(x, Poly) and x.const_value() is not None for x in v):
-            return [self.intval(x, sl) for x in v]
+        if isinstance(v, (list, tuple)) and v and all((isinstance(x, Poly) and x.const_value() is not None) or (isinstance(x, int) and not isinstance(x, bool)) for x in v) \
+                and isinstance(v, list):
+            return [x if isinstance(x, int) else self.intval(x, sl) for x in v]
         if isinstance(v, Arr) and v.ndim == 1 and all(x.const_value() is not None for x in v.data):
             return [self.intval(x, sl) for x in v.data]
         if isinstance(v, tuple) and all(isinstance(x, Poly) for x in v):
@@ -2028,6 +2297,30 @@ class Interp:
     def ev_Attribute(self, n, env):
         v = self.ev(n.value, env)
         a = n.attr
+        if isinstance(v, Opaque) and v.kind in ("pkgfunc", "clsmeth", "bound") and a == "register":
+            if v.kind == "pkgfunc":
+                disp = self.pkg.funcs[v.payload[0]]
+            else:
+                owner_ = v.payload[0].name if isinstance(v.payload[0], ClassRef) else v.payload[0].cls
+                kk_ = self.pkg.lookup(owner_, v.payload[1])
+                disp = kk_[1][0] if kk_ is not None and kk_[0] == "method" else None
+            if disp is None:
+                raise self.unsupported("register on %r" % (v,), n)
+
+            def register(cls_, impl=None, disp=disp, n=n):
+                c_ = self.as_class(cls_)
+                if c_ is None or impl is None:
+                    raise self.unsupported("dynamic singledispatch registration form", n)
+                if isinstance(impl, Opaque) and impl.kind == "pkgfunc":
+                    f_ = self.pkg.funcs[impl.payload[0]]
+                elif isinstance(impl, Opaque) and impl.kind in ("clsmeth", "bound"):
+                    o_ = impl.payload[0].name if isinstance(impl.payload[0], ClassRef) else impl.payload[0].cls
+                    f_ = self.pkg.lookup(o_, impl.payload[1])[1][0]
+                else:
+                    raise self.unsupported("dynamic singledispatch registration of %r" % (impl,), n)
+                self.dyn_regs.setdefault(id(disp), []).append((c_, f_))
+                return impl
+            return Opaque("callable", register)
         if isinstance(v, Opaque) and v.kind in ("closure", "pkgfunc", "clsmeth", "bound") and a in ("__name__", "__qualname__", "__doc__", "__code__", "__wrapped__", "__module__"):
             fdef = None
             if v.kind == "closure":
@@ -2070,6 +2363,16 @@ class Interp:
             if v.kind == "finfo" and a == "eps":
                 return poly.opaque("eps")
             if v.kind == "import":
+                origin_ = v.payload[0]
+                if origin_.startswith(".") or origin_.startswith("graphslam"):
+                    if a in self.pkg.funcs:
+                        return Opaque("pkgfunc", a)
+                    if a in self.pkg.classes:
+                        return ClassRef(a)
+                    leafmod = origin_.rsplit(".", 1)[-1]
+                    for rel, cs in sorted(self.pkg.module_consts.items()):
+                        if a in cs and os.path.splitext(os.path.basename(rel))[0] == leafmod:
+                            return self.module_global(rel, a, cs[a])
                 return Opaque("import", v.payload[0] + "." + a)
             if v.kind == "logger":
                 return Opaque("logmeth", a)
@@ -2124,6 +2427,9 @@ class Interp:
             if a in ARR_METHODS:
                 return Opaque("arrmeth", v, a)
             raise self.unsupported("ndarray attribute %s" % a, n)
+        if isinstance(v, ClassRef) and v.name in self.pkg.classes and self.pkg.classes[v.name].enum_kind and \
+                a in self.enum_member_names(v.name):
+            return self.enum_member(v.name, a)
         if isinstance(v, ClassRef):
             for c_ in (self.pkg.mro(v.name) if v.name in self.pkg.classes else [v.name]):
                 if (c_, a) in self.class_attrs:
@@ -2349,6 +2655,47 @@ class Interp:
                     obj = self.ev_Attribute(ast.Attribute(value=_Lit(obj), attr=part, ctx=ast.Load(), lineno=getattr(n, "lineno", 0)), {})
                 return obj
             return Opaque("callable", (lambda obj, names=names: get1(obj, names[0]) if len(names) == 1 else tuple(get1(obj, x) for x in names)))
+        if origin.startswith("operator") and leaf in OPERATOR_BINARY and len(args) == 2:
+            kind, node_cls = OPERATOR_BINARY[leaf]
+            if kind == "arith":
+                if node_cls is ast.MatMult:
+                    return self.dot(args[0], args[1], n)
+                return self.ev_BinOp(ast.BinOp(left=_Lit(args[0]), op=node_cls(), right=_Lit(args[1]), lineno=getattr(n, "lineno", 0)), {})
+            return self.cmp(n, args[0], node_cls(), args[1])
+        if origin.startswith("operator") and leaf in ("neg", "pos", "not_", "truth", "abs", "index") and len(args) == 1:
+            if leaf == "neg":
+                return self.neg(args[0], n)
+            if leaf == "pos":
+                return args[0]
+            if leaf == "not_":
+                return not self.truth(args[0], n)
+            if leaf == "truth":
+                return self.truth(args[0], n)
+            if leaf == "abs":
+                return self.absval(args[0], n)
+            return args[0]
+        if origin.startswith("operator") and leaf == "getitem" and len(args) == 2:
+            return self.ev_Subscript(ast.Subscript(value=_Lit(args[0]), slice=_Lit(args[1]), ctx=ast.Load(), lineno=getattr(n, "lineno", 0)), {})
+        if origin.startswith("operator") and leaf == "contains" and len(args) == 2:
+            return self.cmp(n, args[1], ast.In(), args[0])
+        if origin.startswith("itertools") and leaf == "starmap":
+            return LazyIter([self.call_value(args[0], list(self.iterate(xs, n)), n) for xs in self.iterate(args[1], n)])
+        if origin.startswith("itertools") and leaf == "repeat":
+            if len(args) < 2:
+                raise self.unsupported("infinite itertools.repeat", n)
+            return LazyIter([args[0]] * self.intval(args[1], n))
+        if origin.startswith("itertools") and leaf == "zip_longest":
+            seqs = [self.iterate(a, n) for a in args]
+            m_ = max((len(x) for x in seqs), default=0)
+            fill = kw.get("fillvalue")
+            return LazyIter([tuple(x[i] if i < len(x) else fill for x in seqs) for i in range(m_)])
+        if origin.startswith("itertools") and leaf == "pairwise":
+            xs = self.iterate(args[0], n)
+            return LazyIter(list(zip(xs, xs[1:])))
+        if origin.startswith("dataclasses") and leaf == "field":
+            return FieldSpec(kw.get("default", _NO_DEFAULT), kw.get("default_factory"))
+        if origin.startswith("dataclasses") and leaf in ("astuple", "asdict", "replace", "fields"):
+            raise self.unsupported("dataclasses.%s" % leaf, n)
         if origin.startswith("functools") and leaf == "wraps":
             return Opaque("callable", (lambda f_: f_))
         if origin.startswith("functools") and leaf in ("lru_cache", "cache"):
@@ -2800,6 +3147,8 @@ class Interp:
     def unhash(self, k):
         if isinstance(k, tuple) and len(k) == 2 and k[0] == "num":
             return Poly.const(k[1])
+        if isinstance(k, tuple) and len(k) == 3 and k[0] == "enum":
+            return self.enum_member(k[1], k[2])
         if isinstance(k, tuple):
             return tuple(self.unhash(x) for x in k)
         return k
@@ -3608,6 +3957,13 @@ class Interp:
                 return Arr([fill for _ in range(dims[0])], 1)
             if len(dims) == 2:
                 return Arr([[fill for _ in range(dims[1])] for _ in range(dims[0])], 2)
+        if name == "cumsum" and len(args) == 1 and "axis" not in kw:
+            fl_ = self.to_arr(args[0], n).flat()
+            out_, acc_ = [], Poly()
+            for x_ in fl_:
+                acc_ = acc_ + x_
+                out_.append(acc_)
+            return Arr(out_, 1)
         if name == "arange":
             iv = [self.intval(a, n) for a in args]
             return Arr([Poly.const(i) for i in range(*iv)], 1)
